@@ -756,7 +756,10 @@ fn run_shard<P: Property>(
                 failure_persistence: None,
                 rng_seed: RngSeed::Fixed(mix(opts.seed, p.id(), name, k)),
                 max_shrink_iters: 4000,
-                max_global_rejects: 1_000_000,
+                // rejections are counted over the whole shard (hundreds of thousands of cases): a
+                // filter that rejects one draw in a thousand must not abort a thorough stage
+                max_local_rejects: u32::MAX,
+                max_global_rejects: u32::MAX,
                 ..Config::default()
             };
             let mut runner = TestRunner::new(cfg);
